@@ -338,3 +338,74 @@ def c05_h(ctx):
 def c05_i(ctx):
     from . import C06 as _C06
     return _C06.c06_i(ctx)
+
+
+@obligation('C05-j', 'T8 T13', 'overriding a node works whether or not the pool already supplied '
+            'its value: the removal of its operation tolerates an absent key', floor=2,
+            necessary='the pool loader removes the operation of every node it supplies; a second, '
+                      'intolerant removal raises KeyError when a sampler overrides a stored node '
+                      '(SMC / BO re-run on a pool that stores the parameters)')
+def c05_j(ctx):
+    bh = ctx.cls('elfi.client:BatchHandler')
+    sub = ctx.own_method(bh, 'submit')
+    ex = ctx.ex(sub)
+    loops = [l for l in own_nodes(sub.node) if isinstance(l, ast.For) and
+             match(ex.term(l.iter), pattern('_b.items()')) is not None]
+    if not loops:
+        raise AnchorMissing('override loop in BatchHandler.submit')
+    lp = loops[0]
+    n = 0
+    for s in ast.walk(lp):
+        # del d['operation']  /  d.pop('operation')  /  d.pop('operation', default)
+        if isinstance(s, ast.Delete):
+            for t in s.targets:
+                if isinstance(t, ast.Subscript) and isinstance(t.slice, ast.Constant) and \
+                        t.slice.value == 'operation':
+                    n += 1
+                    ctx.bad(sub, 'tolerant removal of the operation',
+                            '`{}` raises KeyError when the pool loader has already removed the '
+                            'operation of the overridden node'.format(src(s)[:60]), fn=sub,
+                            node=s)
+        if isinstance(s, ast.Call) and isinstance(s.func, ast.Attribute) and \
+                s.func.attr == 'pop' and s.args and isinstance(s.args[0], ast.Constant) and \
+                s.args[0].value == 'operation':
+            n += 1
+            ctx.check(len(s.args) >= 2, sub, 'tolerant removal of the operation',
+                      "pop('operation', None)",
+                      "`{}` raises KeyError when the pool loader has already removed the "
+                      'operation of the overridden node'.format(src(s)[:60]), fn=sub, node=s)
+    if n == 0:
+        ctx.bad(sub, 'overridden node loses its operation',
+                'an overridden node keeps its operation: the executor refuses a node with both an '
+                'output and an operation', fn=sub, node=lp)
+    # the same node receives the given value
+    st = [s for s in ast.walk(lp) if isinstance(s, ast.Call) and isinstance(s.func, ast.Attribute)
+          and s.func.attr == 'update' and s.args and isinstance(s.args[0], ast.Dict)]
+    st2 = [s for s in ast.walk(lp) if isinstance(s, ast.Assign) and
+           isinstance(s.targets[0], ast.Subscript) and
+           isinstance(s.targets[0].slice, ast.Constant) and s.targets[0].slice.value == 'output']
+    ok = False
+    for s in st:
+        keys = [k.value for k in s.args[0].keys if isinstance(k, ast.Constant)]
+        if keys == ['output'] and ex.term(s.args[0].values[0])[0] == 'item' and \
+                ex.term(s.args[0].values[0])[2] == 1:
+            ok = True
+    ok = ok or bool(st2)
+    ctx.check(ok, sub, 'overridden node receives the given value', "nodes[k]['output'] = v", '',
+              fn=sub, node=st[0] if st else lp)
+    # the override happens on the net loaded for this batch, before it is submitted
+    ld = ctx.calls(sub, 'self.client.load_data(*_)')
+    sm = ctx.calls(sub, 'self.client.submit(_)')
+    ok = bool(ld) and bool(sm) and cfg_of(sub).exists_path(
+        ctx.node(sub, _stmt_of(ld[0])), ctx.node(sub, lp)) and \
+        not cfg_of(sub).exists_path(ctx.node(sub, _stmt_of(sm[0])), ctx.node(sub, lp))
+    ctx.check(ok, sub, 'override between load and submit', 'load_data; override; client.submit',
+              'the given values are not written into the loaded net before it is submitted',
+              fn=sub, node=lp)
+
+
+def _stmt_of(node):
+    n = node
+    while n is not None and not isinstance(n, ast.stmt):
+        n = getattr(n, '_parent', None)
+    return n
